@@ -41,6 +41,7 @@ fn run_child(harness: &str, cfg: Value) {
         "c11_shared" => Box::new(move || harness::agg::c11_shared(&cfg)),
         "c17" => Box::new(move || harness::global::c17(&cfg)),
         "c20" => Box::new(move || harness::bridge::c20(&cfg)),
+        "c20_describe_vs_readout" => Box::new(move || harness::bridge::c20_describe_vs_readout(&cfg)),
         "c20_describe" => Box::new(move || harness::bridge::c20_describe(&cfg)),
         "c17_attach" => Box::new(move || harness::global::c17_attach(&cfg)),
         "c13" => Box::new(move || harness::uow::c13(&cfg)),
